@@ -1,8 +1,8 @@
 package rules
 
 import (
-	"go/token"
 	"fmt"
+	"go/token"
 	"go/types"
 	"sort"
 	"strings"
@@ -209,6 +209,9 @@ func checkLockPairing(e *Env, rule string, f *ssa.Function, filter func(path str
 		op, path, _ := core.MutexOp(c)
 		if filter != nil && !filter(path) {
 			continue
+		}
+		if !la.Reachable(c) {
+			continue // in a branch that cannot be taken with the constant flags this helper is called with here
 		}
 		held := la.At(c)
 		h, ok := held[path]
@@ -587,12 +590,12 @@ func checkRangeCallbacks(e *Env, rule string, fns []*ssa.Function, arm bool) {
 					}
 					if n == "pkg/sync.Map.ReplaceWithFunc" {
 						nMut++
-						inner := core.FuncArgClosure(core.Arg(mc, 2))
+						inner, shift := core.MethodBehind(core.FuncArgClosure(core.Arg(mc, 2))) // a literal, or the method behind a method value
 						if inner == nil || len(cb.Params) < 2 {
 							bad = "ReplaceWithFunc callback is not a function literal"
 							continue
 						}
-						if why := compareStyle(inner, cb.Params[1]); why != "" {
+						if why := compareStyle(inner, shift, cb.Params[1]); why != "" {
 							bad = fmt.Sprintf("ReplaceWithFunc at %s is not compare-and-act on the inspected value: %s", e.pos(mc.(ssa.Instruction)), why)
 						}
 					}
@@ -616,52 +619,50 @@ func checkRangeCallbacks(e *Env, rule string, fns []*ssa.Function, arm bool) {
 // compareStyle: every return of the ReplaceWithFunc callback that changes the map (result 0 is not the old value, or delete may be
 // true while the old value exists) is reachable only through the true edge of oldValue == stale.
 // Returns "" if so, else a reason.
-func compareStyle(inner *ssa.Function, stale *ssa.Parameter) string {
-	if len(inner.Params) < 2 {
+func compareStyle(inner *ssa.Function, shift int, stale *ssa.Parameter) string {
+	if len(inner.Params) < 2+shift {
 		return "unexpected callback signature"
 	}
-	oldV, oldLoaded := inner.Params[0], inner.Params[1]
+	oldV, oldLoaded := inner.Params[shift], inner.Params[shift+1]
 	isStale := func(v ssa.Value) bool { return core.Resolve(v) == ssa.Value(stale) }
-	for _, ret := range core.ReturnsOf(inner) {
-		if len(ret.Results) != 2 {
+	// truth table of the callback over {the key is present, the value found is the one inspected}; every other test is free
+	bf := &core.BoolFn{Fn: inner, AtomOf: func(v ssa.Value) (string, bool, bool) {
+		if v == ssa.Value(oldLoaded) {
+			return "present", false, true
+		}
+		if c, isCmp := core.AsCmp(v); isCmp && (c.Op == token.EQL || c.Op == token.NEQ) {
+			if (c.X == ssa.Value(oldV) && isStale(c.Y)) || (c.Y == ssa.Value(oldV) && isStale(c.X)) {
+				return "same", c.Op == token.NEQ, true
+			}
+		}
+		return "", false, false
+	}}
+	rows, err := bf.Table()
+	if err != nil {
+		return err.Error()
+	}
+	for _, r := range rows {
+		if r.Unknown != "" {
+			return "callback not decided: " + r.Unknown
+		}
+		if len(r.RetVals) != 2 {
 			return "unexpected results"
 		}
-		identity := false
-		if core.RetVal(ret, 0) == ssa.Value(oldV) {
-			if b, ok := core.ConstBool(core.RetVal(ret, 1)); ok && !b {
-				identity = true
-			}
-			if u, neg := core.StripNot(core.RetVal(ret, 1)); neg && u == ssa.Value(oldLoaded) {
-				identity = true // delete only what does not exist
-			}
+		keeps := core.Resolve(r.RetVals[0]) == ssa.Value(oldV)
+		del := r.Rets[1] // 1 delete, 0 keep, -1 unknown
+		if r.Assign["present"] && r.Assign["same"] {
+			continue // the entry is still the one that was inspected: acting on it is the point
 		}
-		if identity {
-			continue
-		}
-		// a deleting return on the `!oldLoaded` edge deletes what does not exist: the identity as well
-		if b, isC := core.ConstBool(core.RetVal(ret, 1)); isC && b {
-			if _, absent := core.GuardedBy(ret, func(cond ssa.Value) core.CondMatch {
-				if cond == ssa.Value(oldLoaded) {
-					return core.CondMatch{Match: true, Branch: false}
-				}
-				return core.CondMatch{}
-			}); absent {
-				continue
+		if !r.Assign["present"] {
+			if del == 1 {
+				continue // deleting what does not exist: the identity
 			}
+			return "for an absent key the callback stores a value (for [" + core.AssignString(r.Assign) + "])"
 		}
-		_, ok := core.GuardedBy(ret, func(cond ssa.Value) core.CondMatch {
-			c, isCmp := core.AsCmp(cond)
-			if !isCmp {
-				return core.CondMatch{}
-			}
-			if (c.X == ssa.Value(oldV) && isStale(c.Y)) || (c.Y == ssa.Value(oldV) && isStale(c.X)) {
-				return core.CondMatch{Match: true, Branch: c.Op.String() == "=="}
-			}
-			return core.CondMatch{}
-		})
-		if !ok {
-			return "a return that replaces/deletes the entry is not guarded by `current value == inspected value`"
+		if keeps && del == 0 {
+			continue // the identity
 		}
+		return "a return that replaces/deletes the entry is not guarded by `current value == inspected value` (for [" + core.AssignString(r.Assign) + "])"
 	}
 	return ""
 }
